@@ -506,6 +506,11 @@ GENERIC = ["Source", "PLoad", "ILoad", "RLoad", "RLoss", "VLoss", "Converter", "
 _GOOD = {"vo": 5.0, "rs": 0.5, "pwr": 1.0, "pwrs": 0.1, "rt": 2.0, "ii": 0.3, "iis": 0.01, "eff": 0.8, "iq": 1e-3, "ig": 1e-3, "vdrop": 0.2, "loss": True}
 
 
+import json as _json, os as _os
+try: _PINNED_TYPES = _json.load(open(_os.path.join(_os.path.dirname(__file__), "TOML_TYPES.json")))
+except Exception: _PINNED_TYPES = {}
+
+
 def toml_obligations(run, src):
     """C13-P1/P2: the generic loader _Component.from_file builds cls(name, **values) with file values for present keys and
     the schema default for absent optional ones; KeyError for a missing mandatory key; ValueError for a wrongly typed value;
@@ -561,16 +566,22 @@ def toml_obligations(run, src):
         for k in mand:
             sect = {q: value(q) for q in keys if q != k}
             r = _run_loader(src, cls, {cp["name"]: sect})
-            ok = r is not None and all(p.kind == "raise" and p.value.etype == "KeyError" for p in r)
+            if r is None:
+                run.undecide("%s/missing mandatory key %s raises KeyError" % (base, k), "loader body outside the supported subset on this tree"); continue
+            ok = all(p.kind == "raise" and p.value.etype == "KeyError" for p in r)
             obls.append({"id": "%s/missing mandatory key %s raises KeyError" % (base, k), "hyps": [], "goal": z3.BoolVal(bool(ok)), "kind": "post", "tags": ["C13"], "meta": {}})
         for k in keys:
-            for wrongv, wl in (("text", "str"), (True, "bool"), ([1.0], "list"), (None, "none")):
+            for wrongv, wl in (("text", "str"), (True, "bool"), (False, "bool-false"), ([1.0], "list"), (0, "int-zero"), (1, "int-one"), (0.0, "float-zero"), (None, "none")):
                 typ = cp["params"][k]["typ"]
+                pinned = _PINNED_TYPES.get(cls, {}).get(k)
+                if pinned is not None: typ = [t_ for t_ in (int, float, bool, str, list, dict) if t_.__name__ in pinned]     # the documented types (contracts/TOML_TYPES.json), not the tree's own declaration
                 if type(wrongv) in typ or wrongv is None and False: continue
                 if wrongv is None: continue
                 sect = {q: value(q) for q in keys}; sect[k] = wrongv
                 r = _run_loader(src, cls, {cp["name"]: sect})
-                ok = r is not None and all(p.kind == "raise" and p.value.etype == "ValueError" and not p.value.implicit for p in r)
+                if r is None:
+                    run.undecide("%s/value of the wrong type (%s) for %s is rejected with ValueError" % (base, wl, k), "loader body outside the supported subset on this tree"); continue
+                ok = all(p.kind == "raise" and p.value.etype == "ValueError" and not p.value.implicit for p in r)
                 obls.append({"id": "%s/value of the wrong type (%s) for %s is rejected with ValueError" % (base, wl, k), "hyps": [], "goal": z3.BoolVal(bool(ok)), "kind": "post", "tags": ["C13"], "meta": {}})
     run.assumed.add("toml.load returns the file's tables as nested dicts with python scalars / lists (validated boundedly by C13-B1)")
     return obls
